@@ -89,6 +89,9 @@ def catalogue():
                                       step("s2", [irq("a3")])]), {"c1": "$bool", "c2": "$bool"})
     # a timed act (1s rule with a handler step) followed by another step: for the tick-vs-action race
     C["tmo_act"] = (wf("m", [step("s1", [irq("a1", timeout=[timeout("1s", [step("ts0", [irq("ta0")])])])]), step("s2", [irq("a2")])]), {})
+    # the client fails a1 with a code its catch takes: the catch steps wait for the client while a1 is running again (reload in between)
+    C["catch_reload"] = (wf("m", [step("s1", [irq("a1", catches=[catch([step("cs1", [irq("ca1")])], on="e1")], _close_with=["Error", {"ecode": "e1", "message": "boom"}]), irq("a2")]),
+                                  step("s2", [irq("a3")])]), {})
     C["two_steps"] = (wf("m", [step("s1", [irq("a1")]), step("s2", [irq("a2")])]), {})
     C["one_irq"] = (wf("m", [step("s1", [irq("a1")])]), {})
     C["if_else_first"] = (wf("m", [step("s1", branches=[
@@ -235,7 +238,7 @@ def catalogue():  # noqa: F811
 
 
 # skeletons that only make sense for a particular driver (tree check, engine-raised errors, reload with ticks)
-SPECIAL = ("step_next", "tmo_reload", "no_ids", "branches_and_acts", "tmo_act", "init_err_own_catch", "init_err_step_catch", "init_err_uncaught")
+SPECIAL = ("step_next", "tmo_reload", "no_ids", "branches_and_acts", "tmo_act", "catch_reload", "init_err_own_catch", "init_err_step_catch", "init_err_uncaught")
 
 
 def flow_names(extended=True):
